@@ -12,7 +12,11 @@ EXPR_KINDS = {'lit', 'var', 'bin', 'un', 'call', 'mcall', 'field', 'new', 'list'
 
 
 def is_expr(x):
-    return isinstance(x, tuple) and len(x) > 0 and isinstance(x[0], str) and x[0] in EXPR_KINDS
+    if not (isinstance(x, tuple) and len(x) > 0 and isinstance(x[0], str) and x[0] in EXPR_KINDS):
+        return False
+    if x[0] == 'field' and len(x) != 3:
+        return False  # a class member ('field', name, ty, init, fin), not a field access
+    return True
 
 
 def sub_slots(node):
